@@ -601,7 +601,7 @@ fn main() {
                     });
                 }
             }
-            ctx.run_prop("mutex", ctx.cases(40_000, 1_500_000), mutex_case(), check_mutex);
+            ctx.run_prop("mutex", ctx.cases(40_000, 6_000_000), mutex_case(), check_mutex);
             real::run_mutex(ctx);
         }
         "C02" => {
@@ -622,7 +622,7 @@ fn main() {
                     });
                 }
             }
-            ctx.run_prop("rwlock", ctx.cases(40_000, 1_500_000), rw_case(), check_rw);
+            ctx.run_prop("rwlock", ctx.cases(40_000, 6_000_000), rw_case(), check_rw);
             real::run_rwlock(ctx);
         }
         p => {
